@@ -51,8 +51,10 @@ func faultRun(c *ctx) {
 	logs := &countingWriter{}
 	cfg := coraza.NewWAFConfig().WithDebugLogger(debuglog.Default().WithOutput(logs).WithLevel(debuglog.LevelError)).WithDirectives(
 		"SecRuleEngine On\nSecRequestBodyAccess On\nSecRequestBodyLimit 1000\nSecRequestBodyInMemoryLimit " + mem + "\nSecUploadDir " + upl + "\nSecUploadKeepFiles " + kv["keep"] + "\n" +
-			`SecAction "id:1,phase:1,pass,log,ctl:requestBodyProcessor=` + map[bool]string{true: "MULTIPART", false: "RAW"}[kv["kind"] == "upload" || kv["kind"] == "trunc"] + `"` + "\n" +
-			`SecRule REQUEST_BODY "@rx ." "id:2,phase:2,pass,nolog"` + "\n" + `SecRule FILES "@rx ." "id:3,phase:2,pass,nolog"` + "\n")
+			`SecAction "id:1,phase:1,pass,log,ctl:requestBodyProcessor=` + map[bool]string{true: "MULTIPART", false: "RAW"}[kv["kind"] == "upload" || kv["kind"] == "trunc" || kv["kind"] == "uploadoff"] + `"` + "\n" +
+			`SecRule REQUEST_BODY "@rx ." "id:2,phase:2,pass,nolog"` + "\n" + `SecRule FILES "@rx ." "id:3,phase:2,pass,nolog"` + "\n" +
+			// uploadoff: the last rule of the body phase switches the engine off for the rest of the transaction (Close still has to clean up)
+			map[bool]string{true: `SecAction "id:4,phase:2,pass,nolog,ctl:ruleEngine=Off"` + "\n", false: ""}[kv["kind"] == "uploadoff"])
 	waf, err := coraza.NewWAF(cfg)
 	if err != nil {
 		fmt.Println("CONFIGERR", err)
@@ -62,7 +64,7 @@ func faultRun(c *ctx) {
 	stop, _ := strconv.Atoi(kv["stop"])
 	var body []byte
 	ctype := "text/plain"
-	if kv["kind"] == "upload" || kv["kind"] == "trunc" {
+	if kv["kind"] == "upload" || kv["kind"] == "trunc" || kv["kind"] == "uploadoff" {
 		var sb strings.Builder
 		for i := 0; i < nUploads; i++ {
 			fmt.Fprintf(&sb, "--bnd\r\nContent-Disposition: form-data; name=\"f%d\"; filename=\"n%d.txt\"\r\n\r\nfile-content-%d\r\n", i, i, i)
